@@ -24,7 +24,7 @@ var severityTable = map[string][2]string{
 	"resourceEvaluationError":               {"true", "false"},
 	"connlistAnalyzerWarnError":             {"false", "false"},
 	"handlingIPpeersError":                  {"true", "false"},
-	"connectivityAnalysisError":             {"param:isFatal", "param:isSevere"},
+	"connectivityAnalysisError":             {"param#-1", "param#-2"}, // the constructor's last parameter is the fatal flag, the one before it the severe flag
 }
 
 // SeverityTable is C13-c: composite literals of the error carrier types have
@@ -79,7 +79,13 @@ func SeverityTable(p *core.Program, r *core.Report, rule string) {
 					return v
 				}
 				if id, ok := ast.Unparen(e).(*ast.Ident); ok {
-					return "param:" + id.Name
+					sig := fd.Obj.Type().(*types.Signature)
+					for i := 0; i < sig.Params().Len(); i++ {
+						if info.ObjectOf(id) == sig.Params().At(i) {
+							return fmt.Sprintf("param#%d", i-sig.Params().Len())
+						}
+					}
+					return "local"
 				}
 				return core.ExprStr(e)
 			}
